@@ -132,7 +132,11 @@ def gen(ctx):
         if r < 0.06:
             # the delivery of the block's own output event fails with a ValueError during put #k
             case['listener_fault'] = rng.randrange(len(case['puts']))
-        elif r < 0.2 and case['kind'] == 'Input' and good:
+        elif r < 0.12:
+            # a put that arrives during the clean-up (stop_data of an output block -> on_success):
+            # before or after the destination's own stop(), it is validated like any other
+            case['cleanup_put'] = rng.randrange(len(DOMAIN))
+        elif r < 0.26 and case['kind'] == 'Input' and good:
             # persistent, nothing stored, no initdef: the block gets its first value from events
             # sent by another block during the initialisation; rejected puts come first
             case['uninit'] = [rng.choice(bad) for _ in range(rng.randrange(0, 3)) if bad] \
@@ -180,6 +184,7 @@ def run_batch(batch, ctx):
     dict.__setitem__(storage, 'edzed-stop-time', 0.0)
     vals = []
     done = [False] * len(batch)
+    finals = {}
     state = {'aborted': None}
 
     class Feeder(edzed.SBlock):
@@ -231,6 +236,10 @@ def run_batch(batch, ctx):
                               f"{DOMAIN[case['expired']]!r}): {err!r}")
                 blk = None
             blocks.append(blk)
+            if blk is not None and case.get('cleanup_put') is not None:
+                edzed.OutputFunc(f"of{i}", func=lambda v: v, on_error=None,
+                                 stop_data={'value': DOMAIN[case['cleanup_put']]},
+                                 on_success=edzed.Event(blk, 'put'))
             coll = getattr(val, 'given_collection', None)
             if blk is not None and isinstance(coll, (list, set)):
                 # the application goes on using its collection after the block was created
@@ -249,7 +258,7 @@ def run_batch(batch, ctx):
                 done[i] = True
                 continue
             try:
-                check_one(case, blk, vals[i], sim, ctx)
+                finals[i] = check_one(case, blk, vals[i], sim, ctx)
             except core.Violation as v:
                 ctx.violation(case, v.key, v.msg)
             done[i] = True
@@ -268,6 +277,22 @@ def run_batch(batch, ctx):
         for case in batch:
             ctx.case_done(case, False)
         return
+    if state['aborted'] is None:
+        # puts delivered during the clean-up
+        for i, case in enumerate(batch):
+            if case.get('cleanup_put') is None or finals.get(i) is None or out['objs'][i] is None:
+                continue
+            value = DOMAIN[case['cleanup_put']]
+            ok, newval = vals[i].ref(value)
+            want = newval if ok else finals[i][0]
+            ctx.count('cleanup_puts_checked')
+            got = out['objs'][i].output
+            if not eq(got, want):
+                ctx.violation(
+                    case, f"cleanup-put-{'accepted' if ok else 'rejected'}-wrong-output",
+                    f"{case['kind']}: put({value!r}) sent by an output block's stop_data result "
+                    f"during the clean-up (reference: {'accepted' if ok else 'rejected'}): final "
+                    f"output {got!r}, expected {want!r}")
     for i, case in enumerate(batch):
         if done[i]:
             ctx.case_done(case, True, sample={
@@ -379,6 +404,7 @@ def check_one(case, blk, val, sim, ctx):
             st = blk.get_state()
             if st[0] != 'valid' or not eq(st[2].get('input'), cur):
                 raise core.Violation('state-differs', f"InputExp state {st!r}, value {cur!r}")
+    return (cur,)
 
 
 def run_cases(cases, ctx, bsize=60):
